@@ -43,7 +43,7 @@ CLAIMED = {
  "C19": dict(cat="proof", tech=VX + " (the ancillary acceptance path)",
              text="PARTIAL: the ancillary clause: AncillaryVerifier::verify accepts only a manifest found in the unpack directory whose every listed file hashes to the listed hash and which is signed under the configured key, hands on exactly the listed files; the archive is unpacked into a temporary directory and only a manifest validated there is moved to the target.",
              note="The immutable-file clause (UnexpectedDownloadedFileVerifier), tar/zstd unpacking, HTTP, the file moves themselves, removal of the temporary directory on failure and file-system races are NOT decided.", ref="§0.2 C19"),
- "C20": dict(cat="proof", tech=KV + ", loop-free over all epochs + " + VX + " (signer-side eligibility gate; both epoch services: which offset keys which store access)",
+ "C20": dict(cat="proof", tech=KV + ", loop-free over all epochs + " + VX + " (signer-side eligibility gate; both epoch services: which offset keys which store access; the signer's certifier: never an already signed entity, publish then mark)",
              text="PARTIAL: the epoch-offset algebra shared by signer and aggregator (a key recorded at e is retrieved for signing at e + signing offset; next signers of e are current signers of e+1; retrieval fails exactly at epoch 0), both epoch services keyed by exactly those offsets (key material / signer set in force at e = saved / recorded under e - 1, next under e, registration settings under e + 1; aggregate keys from SignerBuilder on exactly those sets), and the signer's gate can_signer_sign_current_epoch (true only with stored key material for the epoch whose key is the one listed for this party).",
              note="At-most-once signing per beacon, restarts and acceptance by the aggregator at run level (async state machines over SQLite) are not decided.", ref="§4 C20"),
  "C10": dict(cat="proof", tech=VX + " (the client's acceptance decision for a restored database)",
